@@ -685,9 +685,36 @@ func multiKeyCase(r *rng) MalType {
 	}
 }
 
+// map / apply with a function that KEEPS what it was handed: a closure with a rest parameter returns, wraps or
+// captures its rest list, one per call (each call of the mapped function has arguments of its own)
+func restKeepingCase(r *rng) MalType {
+	seq := []MalType{vc(1, 2, 3), call1("list", 4, 5), vc(kw("a"), kw("b"), kw("c"), kw("d")), call1("range", 0, 4), vc(7)}[r.intn(5)]
+	if _, isVec := seq.(Vector); isVec {
+		seq = call1("quote", seq)
+	}
+	f := []MalType{
+		ls(sy("fn"), vc(sy("&"), sy("xs")), sy("xs")),
+		ls(sy("fn"), vc(sy("&"), sy("xs")), call1("vec", sy("xs"))),
+		ls(sy("fn"), vc(sy("a"), sy("&"), sy("more")), call1("cons", sy("a"), sy("more"))),
+		ls(sy("fn"), vc(sy("&"), sy("xs")), call1("count", sy("xs"))),
+		ls(sy("fn"), vc(sy("&"), sy("xs")), ls(sy("fn"), vc(), sy("xs"))),
+	}[r.intn(5)]
+	switch r.intn(4) {
+	case 0:
+		return call1("apply", f, seq)
+	case 1: // the closures made per element are called afterwards
+		return call1("map", ls(sy("fn"), vc(sy("g")), ls(sy("if"), call1("fn?", sy("g")), ls(sy("g")), sy("g"))), call1("map", f, seq))
+	default:
+		return call1("map", f, seq)
+	}
+}
+
 func collCall(r *rng, depth int) MalType {
 	if r.chance(1, 25) {
 		return renameKeysCase(r)
+	}
+	if r.chance(1, 30) {
+		return restKeepingCase(r)
 	}
 	if r.chance(1, 20) {
 		return multiKeyCase(r)
